@@ -35,3 +35,9 @@ mod c05_color;
 mod c06_spi;
 #[cfg(kani)]
 mod c07_parallel;
+#[cfg(kani)]
+mod c03_draw_iter;
+#[cfg(kani)]
+mod c12_driver;
+#[cfg(kani)]
+mod c19_test_image;
